@@ -76,6 +76,48 @@ Theorem C19_rename_chmod_window :
 Proof. exact rename_chmod_window. Qed.
 Print Assumptions C19_rename_chmod_window.
 
+(* inputs that cannot be updated in place -- URLs (http:// https:// file://), any name under --prepipe/--prepipex, bzip2 by
+   flag or by .bz2 suffix -- are refused BEFORE ANYTHING IS MODIFIED: if ANY name of the command line is such an input
+   (first, middle or LAST in the list), the command performs no file-system operation at all, so every path of the file
+   system is as before at every instant.  (processFilesInPlace pre-pass; before the repair the check was made when the
+   file's turn came, after the files named before it had been rewritten.) *)
+Theorem C19_refusals_before_any_write :
+  forall prepipe flag plan,
+  (exists e, In e plan /\ updatable prepipe flag (e_file e) = false) ->
+  inplace_ops prepipe flag plan = [] /\
+  forall st k p, exec (firstn k (inplace_ops prepipe flag plan)) st p = st p.
+Proof.
+  exact (fun prepipe flag plan H => conj (inplace_ops_refused prepipe flag plan H) (refusals_before_any_write prepipe flag plan H)).
+Qed.
+Print Assumptions C19_refusals_before_any_write.
+
+(* ... and otherwise the command is exactly the per-file sequence all the theorems above are about *)
+Theorem C19_updatable_inputs_are_processed :
+  forall prepipe flag plan,
+  (forall e, In e plan -> updatable prepipe flag (e_file e) = true) -> inplace_ops prepipe flag plan = all_ops plan.
+Proof. exact inplace_ops_accepted. Qed.
+Print Assumptions C19_updatable_inputs_are_processed.
+
+(* which inputs are accepted: not a URL, no prepipe, encoding (flag, else suffix) other than bzip2; gzip / zlib / zstd by
+   flag are accepted whatever the name (since the zstd repair all three are rewritten compressed) *)
+Theorem C19_accepted_inputs :
+  forall prepipe flag f,
+  (updatable prepipe flag f = true <-> is_url f = false /\ prepipe = false /\ input_encoding flag f <> EncBzip2) /\
+  (is_url f = false ->
+   updatable false EncGzip f = true /\ updatable false EncZlib f = true /\ updatable false EncZstd f = true /\
+   updatable false EncBzip2 f = false).
+Proof. exact (fun prepipe flag f => conj (updatable_spec prepipe flag f) (compressions_accepted f)). Qed.
+Print Assumptions C19_accepted_inputs.
+
+(* the refusal hypotheses are satisfiable: a good file first, a .bz2 name LAST; and a URL under no flag *)
+Example C19_refusal_nonvacuous :
+  let plan := [(B "good.csv", B "t1", 420%N, Succeeds [B "new"]); (B "x.bz2", B "t2", 420%N, RefusedAfterCreate)] in
+  inplace_ops false EncDefault plan = [] /\ all_ops plan <> [] /\
+  updatable false EncDefault (B "x.bz2") = false /\ updatable false EncDefault (B "https://h/x") = false /\
+  updatable true EncDefault (B "good.csv") = false /\ updatable false EncDefault (B "k.csv.zst") = true /\
+  inplace_ops false EncDefault [(B "good.csv", B "t1", 420%N, Succeeds [B "new"])] <> [].
+Proof. vm_compute. repeat split; discriminate. Qed.
+
 (* hypotheses are satisfiable: two files, the second fails while its recompressor is being closed *)
 Example C19_nonvacuous :
   let st : fsys := set (B "a") (Some (B "old-a", 420%N)) (set (B "b") (Some (B "old-b", 384%N)) (fun _ => None)) in
